@@ -163,7 +163,7 @@ def thresholds():
     if "w.write_all(&[lenasu8])?" not in norm_ws(b) or "w.write_all(&i.to_le_bytes())?" not in norm_ws(b):
         raise F.FactError("write_u32_array: body changed shape")
     b = norm_ws(F.fn_body(t, "write_empty_if_equal", rel))
-    if b != 'ifdata==other{self.write(w,"")}else{self.write(w,data)}':
+    if not F.same_shape(F.fn_body(t, "write_empty_if_equal", rel), 'ifdata==other{self.write(w,"")}else{self.write(w,data)}'):
         raise F.FactError("write_empty_if_equal changed shape")
     rel2 = "sudachi/src/dic/read/u16str.rs"
     t2 = F.strip_comments(F.src(rel2))
@@ -174,23 +174,23 @@ def thresholds():
         raise F.FactError("string_length_parser changed shape: %r" % b)
     long_from = int(m.group(1))
     b = norm_ws(F.fn_body(t2, "utf16_string_data", rel2))
-    if b != ("let(rest,length)=string_length_parser(input)?;iflength==0{returnOk((rest,&[]));}letnum_bytes=(length*2)asusize;"
-             "ifrest.len()<num_bytes{returnErr(nom::Err::Failure(SudachiNomError::Utf16String));}let(data,rest)=rest.split_at(num_bytes);Ok((rest,data))"):
+    if not F.same_shape(F.fn_body(t2, "utf16_string_data", rel2), ("let(rest,length)=string_length_parser(input)?;iflength==0{returnOk((rest,&[]));}letnum_bytes=(length*2)asusize;"
+             "ifrest.len()<num_bytes{returnErr(nom::Err::Failure(SudachiNomError::Utf16String));}let(data,rest)=rest.split_at(num_bytes);Ok((rest,data))")):
         raise F.FactError("utf16_string_data changed shape: %r" % b)
     b = norm_ws(F.fn_body(t2, "skip_u16_string", rel2))
-    if b != "utf16_string_data(input).map(|(rest,_)|(rest,String::new()))":
+    if not F.same_shape(F.fn_body(t2, "skip_u16_string", rel2), "utf16_string_data(input).map(|(rest,_)|(rest,String::new()))"):
         raise F.FactError("skip_u16_string changed shape")
     rel3 = "sudachi/src/dic/read/mod.rs"
     t3 = F.strip_comments(F.src(rel3))
     for fn_, ty in (("skip_wid_array", "WordId"), ("skip_u32_array", "u32")):
         b = norm_ws(F.fn_body(t3, fn_, rel3))
-        if b != "let(rest,length)=le_u8(input)?;letnum_bytes=lengthasusize*4;letnext=&rest[num_bytes..];Ok((next,Vec::new()))":
+        if not F.same_shape(F.fn_body(t3, fn_, rel3), "let(rest,length)=le_u8(input)?;letnum_bytes=lengthasusize*4;letnext=&rest[num_bytes..];Ok((next,Vec::new()))"):
             raise F.FactError("%s changed shape: %r" % (fn_, b))
     b = norm_ws(F.fn_body(t3, "u32_array_parser", rel3))
-    if b != "let(rest,length)=le_u8(input)?;nom::multi::count(le_u32,lengthasusize)(rest)":
+    if not F.same_shape(F.fn_body(t3, "u32_array_parser", rel3), "let(rest,length)=le_u8(input)?;nom::multi::count(le_u32,lengthasusize)(rest)"):
         raise F.FactError("u32_array_parser changed shape")
     b = norm_ws(F.fn_body(t3, "u32_wid_array_parser", rel3))
-    if b != "let(rest,length)=le_u8(input)?;nom::multi::count(le_u32.map(|id|WordId::from_raw(id)),lengthasusize)(rest)":
+    if not F.same_shape(F.fn_body(t3, "u32_wid_array_parser", rel3), "let(rest,length)=le_u8(input)?;nom::multi::count(le_u32.map(|id|WordId::from_raw(id)),lengthasusize)(rest)"):
         raise F.FactError("u32_wid_array_parser changed shape")
     return len_max, short_below, utf8_max, arr_max, long_from
 
@@ -203,7 +203,7 @@ def shapes():
     exp = ("if!self.has_synonym_group_ids{subset-=InfoSubset::SYNONYM_GROUP_ID;}letmutword_info=self.parse_word_info(word_id,subset)?;"
            "letdfwi=word_info.dictionary_form_word_id;if(dfwi>=0)&&(dfwi!=word_idasi32){letinner=self.parse_word_info(dfwiasu32,InfoSubset::SURFACE)?;"
            "word_info.dictionary_form=inner.surface;};Ok(word_info.into())")
-    if b != exp:
+    if not F.same_shape(F.fn_body(t, "get_word_info", rel), exp):
         raise F.FactError("WordInfos::get_word_info changed shape: %r" % b)
     fallbacks = []
     for name in ("normalized_form", "dictionary_form", "reading_form"):
@@ -225,23 +225,23 @@ def shapes():
            "ifsubset.contains(InfoSubset::SPLIT_A){Self::update_dict_id(&mutword_info.a_unit_split,dict_id)?;}"
            "ifsubset.contains(InfoSubset::SPLIT_B){Self::update_dict_id(&mutword_info.b_unit_split,dict_id)?;}"
            "ifsubset.contains(InfoSubset::WORD_STRUCTURE){Self::update_dict_id(&mutword_info.word_structure,dict_id)?;}Ok(word_info.into())")
-    if b != exp:
+    if not F.same_shape(F.fn_body(t, "get_word_info_subset", rel), exp):
         raise F.FactError("LexiconSet::get_word_info_subset changed shape: %r" % b)
     b = norm_ws(F.fn_body(t, "update_dict_id", rel))
-    if b != "foridinsplit.iter_mut(){letcur_dict_id=id.dic();ifcur_dict_id>0{*id=WordId::checked(dict_id,id.word())?;}}Ok(())":
+    if not F.same_shape(F.fn_body(t, "update_dict_id", rel), "foridinsplit.iter_mut(){letcur_dict_id=id.dic();ifcur_dict_id>0{*id=WordId::checked(dict_id,id.word())?;}}Ok(())"):
         raise F.FactError("LexiconSet::update_dict_id changed shape: %r" % b)
     rel = "sudachi/src/analysis/stateful_tokenizer.rs"
     t = F.strip_comments(F.src(rel))
     b = norm_ws(F.fn_body(t, "set_mode", rel))
-    if b != "self.subset|=matchmode{Mode::A=>InfoSubset::SPLIT_A,Mode::B=>InfoSubset::SPLIT_B,_=>InfoSubset::empty(),};std::mem::replace(&mutself.mode,mode)":
+    if not F.same_shape(F.fn_body(t, "set_mode", rel), "self.subset|=matchmode{Mode::A=>InfoSubset::SPLIT_A,Mode::B=>InfoSubset::SPLIT_B,_=>InfoSubset::empty(),};std::mem::replace(&mutself.mode,mode)"):
         raise F.FactError("StatefulTokenizer::set_mode changed shape: %r" % b)
     b = norm_ws(F.fn_body(t, "set_subset", rel))
-    if b != ("letmode_subset=matchself.mode{Mode::A=>InfoSubset::SPLIT_A,Mode::B=>InfoSubset::SPLIT_B,_=>InfoSubset::empty(),};"
-             "letnew_subset=(subset|mode_subset).normalize();std::mem::replace(&mutself.subset,new_subset|mode_subset)"):
+    if not F.same_shape(F.fn_body(t, "set_subset", rel), ("letmode_subset=matchself.mode{Mode::A=>InfoSubset::SPLIT_A,Mode::B=>InfoSubset::SPLIT_B,_=>InfoSubset::empty(),};"
+             "letnew_subset=(subset|mode_subset).normalize();std::mem::replace(&mutself.subset,new_subset|mode_subset)")):
         raise F.FactError("StatefulTokenizer::set_subset changed shape: %r" % b)
     # the glue that hands results over: the list receives a COPY of the tokenizer's subset, the tokenizer keeps its own
     b = norm_ws(F.fn_body(t, "swap_result", rel))
-    if b != "std::mem::swap(&mutself.input,input);std::mem::swap(self.top_path.as_mut().unwrap(),result);*subset=self.subset;":
+    if not F.same_shape(F.fn_body(t, "swap_result", rel), "std::mem::swap(&mutself.input,input);std::mem::swap(self.top_path.as_mut().unwrap(),result);*subset=self.subset;"):
         raise F.FactError("StatefulTokenizer::swap_result changed shape: %r" % b)
     rel = "sudachi/src/analysis/mlist.rs"
     t = F.strip_comments(F.src(rel))
